@@ -283,11 +283,18 @@ func (w *c26Worker) firstCall(afterRestart bool) error {
 	// connection reset, EOF) that the client does not retry. Daemon restarts are
 	// not part of the property (one storage daemon), so such errors are
 	// tolerated a few times while the client catches up.
-	for try := 0; afterRestart && try < 8 && out.Err != "" && out.Err != rpc.ErrShutdown.Error() && out.Err != daemon.ErrDaemonUnreachable.Error(); try++ {
+	// How long that takes depends on when the client's reader goroutine gets to
+	// run, so the bound is generous (10 s) and by elapsed time, not by count.
+	start := time.Now()
+	for try := 0; afterRestart && time.Since(start) < 10*time.Second && out.Err != "" && out.Err != rpc.ErrShutdown.Error() && out.Err != daemon.ErrDaemonUnreachable.Error(); try++ {
 		w.recs = w.recs[:len(w.recs)-1]
 		vs.Excluded("first request after daemon restart hit a transport error before the client noticed the closed connection")
 		first := out.Err
-		time.Sleep(time.Duration(try+1) * time.Millisecond)
+		pause := time.Duration(try+1) * time.Millisecond
+		if pause > 50*time.Millisecond {
+			pause = 50 * time.Millisecond
+		}
+		time.Sleep(pause)
 		out = w.do(c24In{K: "nextseq"})
 		w.recs[len(w.recs)-1].firstTry = first
 		if out.Err == "" {
